@@ -2348,3 +2348,49 @@ register(
          "switch interval 1e-6; distinct = distinct histories",
     partial_hypotheses=["thread interleavings are sampled, not enumerated; no shared-state theorem yet"],
 )
+
+
+# =========================================================================== T2 correspondence: model lexer vs tumfl lexer
+def py_tok_canon(t: Token) -> str:
+    if isinstance(t.value, tuple):
+        def o(x):
+            return "-" if x is None else "s" + hx(x)
+        v = f"N{'true' if t.value[0] else 'false'}:{o(t.value[1])}:{o(t.value[2])}:{o(t.value[3])}:{o(t.value[4])}"
+    else:
+        v = "S" + hx(t.value)
+    return f"{t.type.name}|{v}|{t.line}|{t.column}|{','.join('c' + hx(c) for c in t.comment)}"
+
+
+def py_lex_canon(src: str, typed: bool = False) -> str:
+    toks = []
+    with quiet():
+        try:
+            lx = Lexer(src, typed)
+            while True:
+                t = lx.get_next_token()
+                toks.append(py_tok_canon(t))
+                if t.type == TokenType.EOF:
+                    return "ok " + " ".join(toks)
+        except LexerError as e:
+            return f"err lexer {e.line} {e.column}"
+        except Exception as e:  # noqa: BLE001
+            return f"err py {type(e).__name__}"
+
+
+def has_surrogate_escape(src: str) -> bool:
+    return bool(re.search(r"\\u\{0*[dD][89a-fA-F][0-9a-fA-F]{2}\}", src))
+
+
+def t2_lex(ctx: fw.Ctx, srcs: list[str], typed: bool = False, name: str = "T2:lex") -> None:
+    """Correspondence: the Lean model of lexer.py and the real lexer on the same texts (token types, values,
+    positions, comments, or the LexerError position).  A difference breaks the tie (not by itself a violation)."""
+    st = next((s for s in ctx.streams if s.name == name + " correspondence"), None) or ctx.stream(name + " correspondence")
+    srcs = [s for s in srcs if not has_surrogate_escape(s)]
+    answers = drive([("mlex", "1" if typed else "0", hx(s)) for s in srcs])
+    for src, ans in zip(srcs, answers):
+        mine = py_lex_canon(src, typed)
+        st.record({"kind": "t2-lex", "source": src[:200]}, key=src, nontrivial=True)
+        if ans.startswith("err py") and mine.startswith("err py"):
+            continue
+        if ans != mine:
+            ctx.tie_broken(name, {"source": src[:500], "model": ans[:600], "tumfl": mine[:600]})
